@@ -22,7 +22,7 @@ PLAIN_ATTRS = ['data-a', 'data-b', 'foo', 'bar', 'x', 'aria-label', 'role', 'lan
 PLAIN_CLASSES = ['a', 'b', 'item', 'row', 'c-d', 'n$', 'blk', 'x1']
 PLAIN_TEXTS = ['text', 'Hello World', 'a b c', 'é ü', 'x < y & z', 'tab\there', 'item $', '  pad  ', 'line1\nline2', 'l1\r\nl2\nl3',
                'sep\u2028arated', '<b>t</b>', '"q"', 'a\n\nb', '\U0001F600 smile', 'a\U0001F600b\U0001F680', 'e\u0301 combining',
-               '\u4e2d\u6587', 'x\U0001F600\ny']
+               '\u4e2d\u6587', 'x\U0001F600\ny', 'trail  \nnext', 'tab\t\nx \n y', ' \n ', 'end \n']
 
 HTML_SYNTAXES = ['html', 'html', 'html', 'xml', 'xsl', 'jsx', 'js', 'vue', 'svelte', 'xhtml', 'myml']
 INDENT_SYNTAXES = ['pug', 'slim', 'haml']
@@ -67,7 +67,7 @@ class Tree:
             self.fields_written += 1
         glues = [' ', ' x ', '-', ' and ', '', ' \U0001F600 ']
         if multiline:
-            glues += [' x\ny ', '\n', ' a\nb\nc ']
+            glues += [' x\ny ', '\n', ' a\nb\nc ', ' \n ', 'x  \n\ty']
         glue = pick(rng, glues)
         return glue.join(parts)
 
@@ -106,7 +106,7 @@ class Tree:
                 elif r < 0.6:
                     node['attrs'].append((a, 'emptyq', None))
                 else:
-                    node['attrs'].append((a, 'value', pick(rng, ['v', 'a b', 'v$', '1', '\U0001F600', 'e\u0301x'])))
+                    node['attrs'].append((a, 'value', pick(rng, ['v', 'a b', 'v$', '1', '\U0001F600', 'e\u0301x', 'l1 \nl2', ' lead'])))
         if maybe(rng, 0.15):
             node['repeat'] = rng.randint(1, 3)
         elif self.wrap is not None and not self.implicit_used and maybe(rng, 0.3):
@@ -364,7 +364,7 @@ def gen_c13(run_seed):
                     opts[key] = pick(rng, vals)
             if family in ('html', 'indent') and maybe(rng, 0.25):
                 # wrap text (plain, non-empty lines): goes into the deepest last element
-                spec['text'] = pick(rng, [['foo'], ['foo', 'bar baz'], ['one', 'two', 'x < y'], 'single', 'two words'])
+                spec['text'] = pick(rng, [['foo'], ['foo', 'bar baz'], ['one', 'two', 'x < y'], 'single', 'two words', 'l1  \nl2', ['a \nb', 'c']])
             if family == 'free':
                 if maybe(rng, 0.5):
                     spec['text'] = gen_text(rng)
